@@ -2,8 +2,7 @@
 Concrete instances (`K = ℚ`) for the non-vacuity examples of the C13 ∘ C14 composition (`Rooc/Props/C05.lean`,
 `Rooc/Props/C04.lean`):
 
-* `exMin` : `min −x  s.t.  c: x ≤ 2`, `x ≥ 0` (it is what `Compile.linearize` returns for `exSrc` of
-  `Proofs/ComposeSemExamples.lean`) — standard form `x + $sl_1 = 2` (computed by the kernel), start tableau
+* `exMin` : `min −x  s.t.  c: x ≤ 2`, `x ≥ 0` — standard form `x + $sl_1 = 2` (computed by the kernel), start tableau
   `Props.C14.T0`, one pivot, `Finished` at `Props.C14.T0'`, optimum `−2` at `x = 2`;
 * `exUnb` : `min −x  s.t.  −x ≤ 2`, `x ≥ 0` — start tableau `Props.C14.T1`, `Unbounded` at once;
 * `exFree` : `min y  s.t.  y ≥ −3`, `y` free — standard form over `$py, $my, $su_1` (used by C04's recombination
